@@ -53,6 +53,32 @@ for (f,n),c in fns.items():
 for (f,n),c in sorted(seen.items()):
     if c==0 and '/tests' not in f and 'test' not in n.lower(): print(f.replace('/repo/',''), n)
 PY
+python3 - "$P/all.lcov" > $V/coverage/uncovered_lines.txt <<'PY'
+import sys
+cur=None; miss={}
+for l in open(sys.argv[1]):
+    l=l.strip()
+    if l.startswith('SF:'): cur=l[3:].replace('/repo/','')
+    elif l.startswith('DA:'):
+        n,c=l[3:].split(',')[:2]
+        if int(c)==0: miss.setdefault(cur,[]).append(int(n))
+for f,ls in sorted(miss.items()):
+    # drop lines inside #[cfg(test)] modules (everything after the first `mod tests`/`#[cfg(test)]`)
+    try:
+        src=open('/repo/'+f).read().split('\n')
+    except Exception:
+        src=[]
+    cut=len(src)+1
+    for i,t in enumerate(src,1):
+        if t.strip().startswith('#[cfg(test)]'): cut=i; break
+    ls=[n for n in ls if n<cut]
+    if not ls: continue
+    out=[]; a=b=ls[0]
+    for n in ls[1:]+[None]:
+        if n is not None and n==b+1: b=n; continue
+        out.append(str(a) if a==b else '%d-%d'%(a,b)); a=b=n
+    print(f, ' '.join(out))
+PY
 tail -1 $V/coverage/SUMMARY.txt
 wc -l $V/coverage/uncovered_functions.txt
 rm -rf $P
